@@ -70,7 +70,7 @@ Proof. exact set_existing_moves_refuted. Qed.
 Print Assumptions C03_set_existing_does_not_move_refuted.
 
 Theorem C03_key_equality_refuted :
-  exists t, run hclo empty_table (OSet (VClo 1 0) (VInt 1) :: ints 12) = Ok t /\
+  exists t, run hclo empty_table (OSet (VClo 1 0) (VInt 1) :: negs 12) = Ok t /\
     equals (VClo 1 0) (VClo 2 0) = true /\
     mget hclo t (VClo 1 0) = Ok (VInt 1) /\ mget hclo t (VClo 2 0) = Ok VNil.
 Proof. exact closure_key_refuted. Qed.
